@@ -274,12 +274,32 @@ impl<'s, M: Matcher, S: Sink> MultiLine<'s, M, S> {
                 range
             }
             Some(mat) => {
-                let line = lines::locate(
+                let mut line = lines::locate(
                     self.slice,
                     self.config.line_term.as_byte(),
                     mat,
                 );
                 let range = Range::new(self.core.pos(), line.start());
+                // Subsequent matches that begin within the lines covered so
+                // far extend the covered lines: resume the search where the
+                // match ended, not where its last line ends.
+                self.advance(&mat);
+                while self.core.pos() < line.end() {
+                    match self.find()? {
+                        Some(next) if next.start() < line.end() => {
+                            let next_line = lines::locate(
+                                self.slice,
+                                self.config.line_term.as_byte(),
+                                next,
+                            );
+                            if next_line.end() > line.end() {
+                                line = line.with_end(next_line.end());
+                            }
+                            self.advance(&next);
+                        }
+                        _ => break,
+                    }
+                }
                 self.advance(&line);
                 range
             }
